@@ -172,6 +172,13 @@ type Params struct {
 	// CustomPart restricts Custom to one of the two suffix options: 0 both, 1 only
 	// enum_zero_value_suffix, 2 only service_suffix (so that a lint block with exactly one key exists).
 	CustomPart int `json:"custom_part,omitempty"`
+	// Import usage (usage.go; all three set or none): the workspace additionally has a consumer file whose
+	// single import is used by exactly one reference (UseSite: which kind of element refers to the imported
+	// type), reached directly or through `import public` statements of import-only dependency files
+	// (UseVia); UseSyntax is the syntax of the consumer file.
+	UseVia    string `json:"use_via,omitempty"`
+	UseSite   string `json:"use_site,omitempty"`
+	UseSyntax string `json:"use_syntax,omitempty"`
 }
 
 // DefaultParams is the simplest member.
@@ -188,6 +195,9 @@ func (p Params) Key() string {
 	}
 	if p.Custom && p.CustomPart != 0 {
 		key += fmt.Sprintf("/custompart=%d", p.CustomPart)
+	}
+	if p.UseSite != "" {
+		key += fmt.Sprintf("/use=%s,%s,%s", p.UseVia, p.UseSite, p.UseSyntax)
 	}
 	return key
 }
@@ -511,6 +521,10 @@ func Build(p Params) *Spec {
 			b.field("editions", pal.FTags, scalar("fixed64"), 4, "repeated"))
 		fe.Messages = append(fe.Messages, modern)
 		s.Files = append(s.Files, fd, fe)
+	}
+	// ---- consumer file + import-only dependency files (import usage dimension) -------------------
+	if p.UseSite != "" {
+		addUsage(s, b, false)
 	}
 	return s
 }
